@@ -450,6 +450,36 @@ func draw(t *rapid.T) Case {
 			cs.Pol = append(cs.Pol, rapid.SampledFrom(cands).Draw(t, "ustmt"))
 		}
 	}
+	if rapid.IntRange(0, 11).Draw(t, "focusslashmap") == 8 {
+		// maps that LOOK like the DAG-JSON spelling of a link or of bytes ({"/": "<cid>"}, {"/": {"bytes": "<base64>"}})
+		// but are maps - in the data model and in DAG-CBOR they are ordinary one-key maps. As literal and as data,
+		// against each other and against the link / bytes they resemble, alone and nested.
+		c1 := cid.NewCidV1(cid.DagCBOR, func() mh.Multihash { m, _ := mh.Sum([]byte("slash-map"), mh.SHA2_256, -1); return m }())
+		raw := []byte{0, 1, 2, 3, 250}
+		forms := []val.V{
+			val.Map(val.E("/", val.Str(c1.String()))),
+			val.Map(val.E("/", val.Map(val.E("bytes", val.Str("AAECA/o"))))),
+			val.Map(val.E("/", val.Map(val.E("bytes", val.Str("AAECA/o="))))),
+			{K: "link", S: c1.String()},
+			val.Bytes(raw),
+			val.Map(val.E("/", val.Str("not a cid"))),
+			val.Map(val.E("/", val.Int(1))),
+		}
+		a := rapid.SampledFrom(forms).Draw(t, "sm-a")
+		b := rapid.SampledFrom(forms[:3]).Draw(t, "sm-b")
+		wrapV := func(f val.V, i int) val.V {
+			return []val.V{f, val.List(f), val.Map(val.E("ref", f)), val.List(val.Int(1), val.Map(val.E("ref", f)))}[i]
+		}
+		i := rapid.IntRange(0, 3).Draw(t, "sm-shape")
+		lit := wrapV(b, i)
+		cs.Data = val.Map(val.E("a", wrapV(a, i)))
+		eq := pol.Stmt{Op: "==", Sel: sel.Sel{{Kind: "field", Name: "a"}}, Lit: &lit}
+		if rapid.Bool().Draw(t, "sm-not") {
+			cs.Pol = pol.Policy{{Op: "not", Sub: []pol.Stmt{eq}}}
+		} else {
+			cs.Pol = pol.Policy{eq}
+		}
+	}
 	if rapid.IntRange(0, 11).Draw(t, "focuslinkeq") == 4 {
 		// == between links that address the same bytes in different ways: one multihash under CIDv0, CIDv1 dag-pb,
 		// raw, dag-cbor, dag-json; another hash function; an identity CID. A link is its CID: two different CIDs
